@@ -373,6 +373,7 @@ func ruleLineIncludes(w *World, r *Report) {
 	// U = Unique(ends) stored into the accumulator variable (an Alloc, because a closure appends to it)
 	var acc *ssa.Alloc
 	var uniq ssa.Value
+	var uniqStore *ssa.Store
 	instrs(f, func(in ssa.Instruction) {
 		st, ok := in.(*ssa.Store)
 		if !ok {
@@ -383,7 +384,7 @@ func ruleLineIncludes(w *World, r *Report) {
 			return
 		}
 		if c, ok := resolveNoAlloc(st.Val).(*ssa.Call); ok && distinctFor(w).fnReturnsDistinct(calleeOf(c)) && len(c.Call.Args) == 1 && derivesFromAlloc(c.Call.Args[0], al, ends) {
-			acc, uniq = al, c
+			acc, uniq, uniqStore = al, c, st
 		}
 	})
 	if acc == nil {
@@ -418,6 +419,37 @@ func ruleLineIncludes(w *World, r *Report) {
 						open = "the accumulator is replaced by " + shortInstr(c) + " at " + w.Pos(st.Pos())
 					}
 					return
+				}
+			}
+			// a store that is always followed by the store of the de-duplicated end points (an
+			// initial value, the raw lookup result) is overwritten before anything is accumulated
+			if g == f && uniqStore != nil && st != uniqStore {
+				if st.Block() == uniqStore.Block() {
+					before := false
+					for _, in2 := range st.Block().Instrs {
+						if in2 == ssa.Instruction(st) {
+							before = true
+							break
+						}
+						if in2 == ssa.Instruction(uniqStore) {
+							break
+						}
+					}
+					if before {
+						return
+					}
+				} else if !reachableFrom(uniqStore.Block(), nil)[st.Block()] {
+					// every way from this store to a success return passes the store of the end points
+					reach := reachableFrom(st.Block(), map[*ssa.BasicBlock]bool{uniqStore.Block(): true})
+					all := true
+					for _, ret := range returnsOf(f) {
+						if reach[ret.Block()] && !scFor(w).isFailureReturn(f, ret) {
+							all = false
+						}
+					}
+					if all {
+						return
+					}
 				}
 			}
 			// a store on a path that can only end in a failure return (return []string{}, err
@@ -687,113 +719,114 @@ func (se *stencilEngine) stencilOf(f *ssa.Function) ([]offset, string) {
 }
 
 func (se *stencilEngine) compute(f *ssa.Function) ([]offset, string) {
-	// the loop: a phi with a constant init and a back edge value phi+const
-	var ind *ssa.Phi
-	var init, step int64
-	var hdr *ssa.BasicBlock
-	for _, b := range f.Blocks {
-		for _, in := range b.Instrs {
-			p, ok := in.(*ssa.Phi)
-			if !ok || !isIntType(p.Type()) || len(p.Edges) != 2 {
-				continue
-			}
-			for i := 0; i < 2; i++ {
-				k, ok := constInt(p.Edges[i])
-				if !ok {
-					continue
-				}
-				inc, ok := p.Edges[1-i].(*ssa.BinOp)
-				if !ok || inc.Op != token.ADD || inc.X != ssa.Value(p) {
-					continue
-				}
-				s, ok := constInt(inc.Y)
-				if !ok || s <= 0 {
-					continue
-				}
-				if ind != nil {
-					return nil, "more than one constant loop"
-				}
-				ind, init, step, hdr = p, k, s, b
-			}
-		}
+	// The function is interpreted block by block from its entry over the analyser's
+	// own constant lattice: integer phis take the value of the edge they are entered
+	// by, every branch must be decided by constants and loop variables.  This covers
+	// the classic header-tested loop and the rotated form go/ssa builds for
+	// `for i := range 3` alike.
+	if f.Blocks == nil {
+		return nil, "no body"
 	}
-	if ind == nil {
-		return nil, "no loop with constant initial value and step"
-	}
-	t, fl, ifi := ifSuccs(hdr)
-	if ifi == nil {
-		return nil, "loop header has no test"
-	}
+	env := map[ssa.Value]int64{}
 	var outs []offset
-	for s, n := init, 0; n < 16; s, n = s+step, n+1 {
-		env := map[ssa.Value]int64{ind: s}
-		cont, ok := evalConstCond(ifi.Cond, env)
-		if !ok {
-			return nil, "loop bound is not a constant comparison"
-		}
-		body := t
-		if !cont {
-			_ = fl
-			// loop exit: result must be returned directly
-			return outs, ""
-		}
-		// walk the body until we come back to the header
-		b := body
-		for steps := 0; b != hdr; steps++ {
-			if steps > 64 {
-				return nil, "loop body too long"
+	b := f.Blocks[0]
+	var prev *ssa.BasicBlock
+	for steps := 0; steps < 4000; steps++ {
+		if prev != nil {
+			idx := -1
+			for i, p := range b.Preds {
+				if p == prev {
+					idx = i
+				}
 			}
+			type upd struct {
+				p  *ssa.Phi
+				v  int64
+				ok bool
+			}
+			var ups []upd
 			for _, in := range b.Instrs {
-				c, ok := in.(*ssa.Call)
-				if !ok || builtinName(c) != "append" {
+				p, ok := in.(*ssa.Phi)
+				if !ok {
+					break
+				}
+				if !isIntType(p.Type()) || idx < 0 || idx >= len(p.Edges) {
 					continue
 				}
-				elems, spread := appendedElems(c)
-				for _, el := range elems {
-					o, ok := se.offsetOfID(f, el, env)
-					if !ok {
-						return nil, "an appended element is not a shift of the input ID (" + describeValue(el) + ")"
-					}
-					outs = append(outs, o)
-				}
-				if spread != nil {
-					sc, ok := resolve(spread).(*ssa.Call)
-					if !ok || calleeOf(sc) == nil {
-						return nil, "a spread append is not the result of a neighbourhood function"
-					}
-					inner, why := se.stencilOf(calleeOf(sc))
-					if inner == nil {
-						return nil, "inner neighbourhood: " + why
-					}
-					base, ok := se.offsetOfID(f, sc.Call.Args[0], env)
-					if !ok {
-						return nil, "inner neighbourhood is not applied to a shift of the input ID"
-					}
-					for _, io := range inner {
-						outs = append(outs, offset{base[0] + io[0], base[1] + io[1], base[2] + io[2]})
-					}
+				v, ok := evalConstInt(p.Edges[idx], env)
+				ups = append(ups, upd{p, v, ok})
+			}
+			for _, u := range ups {
+				if u.ok {
+					env[u.p] = u.v
+				} else {
+					delete(env, u.p)
 				}
 			}
-			tt, ff, i2 := ifSuccs(b)
-			if i2 != nil {
-				v, ok := evalConstCond(i2.Cond, env)
-				if !ok {
-					return nil, "a branch in the loop body does not depend on the loop variable only"
-				}
-				if v {
-					b = tt
-				} else {
-					b = ff
-				}
+		}
+		for _, in := range b.Instrs {
+			c, ok := in.(*ssa.Call)
+			if !ok || builtinName(c) != "append" {
 				continue
 			}
-			if len(b.Succs) != 1 {
-				return nil, "unexpected control flow in the loop body"
+			elems, spread := appendedElems(c)
+			for _, el := range elems {
+				o, ok := se.offsetOfID(f, el, env)
+				if !ok {
+					return nil, "an appended element is not a shift of the input ID (" + describeValue(el) + ")"
+				}
+				outs = append(outs, o)
 			}
-			b = b.Succs[0]
+			if spread != nil {
+				sc, ok := resolve(spread).(*ssa.Call)
+				if !ok || calleeOf(sc) == nil {
+					return nil, "a spread append is not the result of a neighbourhood function"
+				}
+				inner, why := se.stencilOf(calleeOf(sc))
+				if inner == nil {
+					return nil, "inner neighbourhood: " + why
+				}
+				base, ok := se.offsetOfID(f, sc.Call.Args[0], env)
+				if !ok {
+					return nil, "inner neighbourhood is not applied to a shift of the input ID"
+				}
+				for _, io := range inner {
+					outs = append(outs, offset{base[0] + io[0], base[1] + io[1], base[2] + io[2]})
+				}
+			}
+			if len(outs) > 200 {
+				return nil, "more than 200 elements"
+			}
+		}
+		if len(b.Instrs) == 0 {
+			return nil, "empty block"
+		}
+		switch last := b.Instrs[len(b.Instrs)-1].(type) {
+		case *ssa.Return:
+			return outs, ""
+		case *ssa.If:
+			var v, ok bool
+			if k, isK := last.Cond.(*ssa.Const); isK && k.Value != nil {
+				v, ok = k.Value.String() == "true", true
+			} else {
+				v, ok = evalConstCond(last.Cond, env)
+			}
+			if !ok {
+				return nil, "a branch does not depend on constants and loop variables only (" + describeValue(last.Cond) + ")"
+			}
+			prev = b
+			if v {
+				b = b.Succs[0]
+			} else {
+				b = b.Succs[1]
+			}
+		case *ssa.Jump:
+			prev, b = b, b.Succs[0]
+		default:
+			return nil, "unexpected control flow"
 		}
 	}
-	return nil, "loop does not terminate within 16 iterations"
+	return nil, "the interpretation does not reach a return within 4000 steps"
 }
 
 // offsetOfID: the ID value is the input parameter (0,0,0) or
